@@ -161,14 +161,14 @@ def run(ctx: Ctx) -> int:
     tlc.model_check(ctx, "Fpef", f"Fpef_c05_mc_{tier}", vacuity_ignore=("Emit", "Save", "Reload", "Resave"))
     gen = [fix_json(r) for r in tlc.generate(ctx, "Fpef", f"Fpef_gen_{tier}")]
     rng = random.Random(ctx.seed * 1000003 + 5)
-    budget = 2600 if tier == "quick" else 20000
+    budget = 2600 if tier == "quick" else 12000
     if len(gen) > budget:     # the model check covers all; replay a seeded sample (all one-module documents kept)
         single = [g for g in gen if len(g["doc"]["mods"]) == 1]
         rest = [g for g in gen if len(g["doc"]["mods"]) != 1]
         picked = single + rng.sample(rest, budget - len(single))
     else:
         picked = gen
-    nrand = 150 if tier == "quick" else 2500
+    nrand = 150 if tier == "quick" else 1500
     rdocs = [random_doc(rng) for _ in range(nrand)]
     # every injection comes from the one definition Fpef!Inject, printed by TLC for the chosen documents
     patches = inject_with_tlc(ctx, [g["doc"] for g in picked] + rdocs)
